@@ -217,6 +217,14 @@ func (c *Ctx) obMustUnder(what string, f *ssa.Function, labels []string, H ...st
 	_, s := c.Std()
 	m, exits := s.MustUnder(f, c.F.SkipUnder(H...))
 	ok := hasAny(m, labels...) && exits > 0
+	if !ok && exits > 0 && f.Parent() == nil && !isExported(f) && len(f.Blocks) > 0 && len(f.Blocks[0].Instrs) > 0 {
+		// the condition may already have been dealt with one level up (a guard hoisted into the dispatcher): if no
+		// caller can enter f under H, there is nothing to show here
+		if reach, _ := c.ReachableUnder(f.Blocks[0].Instrs[0], H); !reach {
+			c.R.Ob(funcName(f)+"/"+what+" when "+strings.Join(H, "&&"), c.P.Pos(f.Pos()), true, "")
+			return
+		}
+	}
 	if !ok && exits > 0 {
 		// the effect may sit in a helper that tests the same condition itself: a call that lies on every feasible
 		// path, to an unexported helper that certainly produces the label under H, counts — provided H only speaks
